@@ -50,6 +50,7 @@ struct ChooserState {
     bound: u32,
     diverged: Option<String>,
     notes: Vec<String>,
+    flags: Vec<String>,
 }
 
 /// Handle through which the harness body and every scripted environment object of one execution
@@ -118,6 +119,19 @@ impl Chooser {
             .unwrap_or_else(|e| e.into_inner())
             .notes
             .push(s.into());
+    }
+
+    /// Raise a flag that the oracle of this execution can query (used by environment objects that
+    /// live inside the code under test, e.g. a message source polled again after its end).
+    pub fn flag(&self, s: &str) {
+        let mut st = self.st.lock().unwrap_or_else(|e| e.into_inner());
+        if !st.flags.iter().any(|f| f == s) {
+            st.flags.push(s.to_string());
+        }
+    }
+
+    pub fn has_flag(&self, s: &str) -> bool {
+        self.st.lock().unwrap_or_else(|e| e.into_inner()).flags.iter().any(|f| f == s)
     }
 
     fn finish(&self) -> (Vec<Point>, Option<String>, Vec<String>, u32) {
